@@ -52,5 +52,58 @@ let () = iter_lines (fun l ->
     | ["V"; x; lo; hi] ->
       out [b2s (tp_time_oor numf (fl x) (fl lo) (fl hi)); b2s (sp_ra_oor numf (fl x) (fl lo) (fl hi));
            b2s (sp_dec_oor numf (fl x) (fl lo) (fl hi))]
+    | "MS" :: kind :: rest ->
+      (* MS box ts te | gauss ts te s, tol, n, 2n edges, K, 2K row values, m, m times
+         -> per source: S_k (state after its row) then m densities *)
+      let (p, rest) = (match kind, rest with
+        | "box", ts :: te :: r -> (Box (fl ts, fl te), r)
+        | "gauss", ts :: te :: s :: r -> (Gauss (fl ts, fl te, fl s), r)
+        | _ -> failwith "profile") in
+      (match rest with
+       | tol :: n :: r ->
+         let n = int_of_string n in
+         let (iv, r) = take (2 * n) r in
+         let ivs = pairs (List.map fl iv) in
+         (match r with
+          | k :: r ->
+            let k = int_of_string k in
+            let (rw, r) = take (2 * k) r in
+            let rows = pairs (List.map fl rw) in
+            (match r with
+             | _ :: ts ->
+               let ts = List.map fl ts in
+               (* run source by source to expose the intermediate S *)
+               let rec go st rows acc = (match rows with
+                 | [] -> List.rev acc
+                 | rw :: rs ->
+                   let (out, st') = calc_pd numf ivs (fl tol) st [rw] [ts] in
+                   go st' rs ((hx (snd st') :: List.map hx (List.concat out)) :: acc)) in
+               out (List.concat (go (tinit numf ivs p) rows []))
+             | [] -> failwith "times")
+          | [] -> failwith "k")
+       | _ -> failwith "tol")
+    | "AE" :: n :: r ->
+      (* AE n orig(n) edges(n+1) then ops: A u(n) | R  -> "Err ..." or nodes after every op *)
+      let n = int_of_string n in
+      let (orig, r) = take n r in
+      let (edges, r) = take (n + 1) r in
+      let orig = List.map fl orig and edges = List.map fl edges in
+      (match sinit numf orig edges with
+       | Err _ -> out ["Err"; "ValueError"]
+       | Ok st0 ->
+         let rec go st toks acc = (match toks with
+           | [] -> List.rev acc
+           | "R" :: rest -> let st' = srun numf edges st [Reset] in go st' rest (List.map hx st'.s_nodes :: acc)
+           | "A" :: rest -> let (u, rest) = take n rest in
+                            let st' = srun numf edges st [AddEvents (List.map fl u)] in
+                            go st' rest (List.map hx st'.s_nodes :: acc)
+           | _ -> failwith "op") in
+         out ("Ok" :: List.concat (go st0 r [List.map hx st0.s_nodes])))
+    | "SM" :: nk :: r ->
+      let nk = int_of_string nk in
+      let (k, r) = take nk r in
+      (match r with
+       | _ :: h -> out (List.map hx (smooth1 numf (List.map fl k) (List.map fl h)))
+       | [] -> failwith "h")
     | _ -> print_endline "ERR"
   with Failure m -> print_endline ("ERR " ^ m))
